@@ -1439,6 +1439,25 @@ fn run_part(clauses: &[Clause], cx: &mut Ctx) -> Result<(Vec<String>, Projected)
                     if !(lo == 0 && hi == n) {
                         // which rows survive depends on tie order unless the window is total
                         cx.nondet = cx.nondet || proj.order.is_empty();
+                        // a window edge inside a group of equal sort keys holding different rows
+                        let key_eq = |a: &Env, b: &Env| p.order_cols.iter().all(|(i, _)| order_cmp(&a[&p.columns[*i]], &b[&p.columns[*i]]) == Ordering::Equal);
+                        let canon_env = |e: &Env| e.values().map(|v| v.canon()).collect::<Vec<_>>();
+                        for edge in [lo, hi] {
+                            if !p.order_cols.is_empty() && edge > 0 && edge < n && key_eq(&next[edge - 1], &next[edge]) {
+                                let mut a = edge - 1;
+                                while a > 0 && key_eq(&next[a - 1], &next[edge]) {
+                                    a -= 1;
+                                }
+                                let mut b = edge;
+                                while b + 1 < n && key_eq(&next[b + 1], &next[edge]) {
+                                    b += 1;
+                                }
+                                let first = canon_env(&next[a]);
+                                if next[a..=b].iter().any(|e| canon_env(e) != first) {
+                                    cx.nondet = true;
+                                }
+                            }
+                        }
                     }
                     next = next[lo..hi].to_vec();
                 }
